@@ -60,6 +60,10 @@ def _prune_literal_if_trivial(plan: Plan, literal: Literal) -> None:
     predecessors = list(plan.graph.predecessors(literal))
     successors = list(plan.graph.successors(literal))
 
+    if not set(predecessors).isdisjoint(successors):
+        # The literal is on a dependency cycle. Leave it in place so that the cycle is reported.
+        return
+
     m = len(predecessors)
     n = len(successors)
 
